@@ -16,6 +16,7 @@ from onnx_ir.passes.common import NameFixPass
 
 from irsim import ops, snapshot
 from irsim.world import World
+from simcore import knobs as _knobs
 from simcore.prng import Streams, digest
 
 logging.getLogger("onnx_ir").setLevel(logging.ERROR)
@@ -68,7 +69,7 @@ def gen_case(run_seed: int, tier: str, index: int = 0) -> dict:
                 ),
             }
         )
-    return {"property": PROPERTY, "run_seed": run_seed, "ops": ops.bootstrap_ops() + ops.gen_ops(r, n, names=names, weights=WEIGHTS), "models": models}
+    return {"property": PROPERTY, "warnings_error": _knobs.warnings_knob(run_seed), "name_generator": Streams(run_seed).rng("name-generator").choice([None, None, "op_out", "op_out", "const", "numbered"]), "run_seed": run_seed, "ops": ops.bootstrap_ops() + ops.gen_ops(r, n, names=names, weights=WEIGHTS), "models": models}
 
 
 # --------------------------------------------------------------------- helpers
@@ -240,6 +241,44 @@ def op_namefix(w: World, a, b, c, d):
 ops.OPS.setdefault("namefix", op_namefix)
 
 
+class _OpOutNames:
+    """A naming scheme as users write them: `<Op>_out` for the output of a single-output node, `<Op>_out_<i>` for the
+    i-th output of a multi-output node (preferred names can equal each other's numbered form)."""
+
+    def generate_node_name(self, node) -> str:
+        return node.name or node.op_type or "node"
+
+    def generate_value_name(self, value) -> str:
+        p = value.producer()
+        if p is None:
+            return value.name or "in"
+        base = f"{p.op_type}_out"
+        return base if len(p.outputs) == 1 else f"{base}_{value.index()}"
+
+
+class _ConstantNames:
+    def generate_node_name(self, node) -> str:
+        return "n"
+
+    def generate_value_name(self, value) -> str:
+        return "x"
+
+
+class _NumberedNames:
+    """Preferred names that already look numbered (`v_1`, `node_1`, `v_1_1`)."""
+
+    def generate_node_name(self, node) -> str:
+        return "node_1" if len(node.inputs) % 2 else "node"
+
+    def generate_value_name(self, value) -> str:
+        k = value.index() or 0
+        return ["v_1", "v", "v_1_1"][k % 3] if value.producer() is not None else "v_1"
+
+
+def _make_name_generator(kind):
+    return {"op_out": _OpOutNames, "const": _ConstantNames, "numbered": _NumberedNames}[kind]() if kind else None
+
+
 def run_namefix_on_generated(case: dict, stats: dict):
     """Part B: NameFixPass on well-formed generated models with missing / duplicated names."""
     import random
@@ -250,7 +289,9 @@ def run_namefix_on_generated(case: dict, stats: dict):
         stats[k] = stats.get(k, 0) + n
 
     found: list = []
-    shared_pass = NameFixPass()  # the same pass object is applied to every model of the case
+    shared_pass = NameFixPass(name_generator=_make_name_generator(case.get("name_generator")))  # the same pass object is applied to every model of the case
+    if case.get("name_generator"):
+        inc("namefix_custom_generator_" + case["name_generator"])
     for mi, spec in enumerate(case.get("models", [])):
         rng = random.Random(spec["seed"])
         suffix = "|unsorted-model" if spec["params"].get("unsorted") else ""
@@ -349,6 +390,11 @@ def run_namefix_on_generated(case: dict, stats: dict):
 
 
 def run_case(case: dict) -> dict:
+    with _knobs.interpreter(case):
+        return _run_case(case)
+
+
+def _run_case(case: dict) -> dict:
     stats: dict = {}
     res = {"violation": None, "error": None, "stats": stats, "steps": 0, "distinct": [], "states": [], "case": case}
 
